@@ -39,13 +39,33 @@ THEOREMS = [
     'CpProofs.C11.C11_session_contained',
     'CpProofs.C11.C11_session_refused_untouched',
     'CpProofs.C11.strPrefix_session_counterexample',
+    'CpProofs.C11.C11_cleanup_contained',
+    'CpProofs.C11.C11_session_request_contained',
+    # lexical containment = physical containment in a symlink-free tree
+    'CpProofs.C11.resolve_lexical',
+    'CpProofs.C11.resolve_create',
+    'CpProofs.C11.C11_physical_contained',
 ]
 LEVEL = 'proof'
 TECHNIQUE = ('Lean 4 proof over a transcription of posixpath.normpath/join/abspath, staticdir and '
              'FileSession._get_file_path (induction over the component list); tied to the code by a '
              'differential run that records every file-system access of the real code in a sandbox')
-LEVEL_TEXT = ''
-LEVEL_NOTE = ''
+LEVEL_TEXT = ('Proved in Lean for every configured dir/root, section, request path, percent-decoder, stat answer, cwd, '
+              'storage path, cookie value and generated id (no size bound; induction over str.split("/") and the normpath '
+              'stack): every path staticdir hands to stat/open (file name and index fallback) and every path the five '
+              'FileSession methods, clean_up and the whole per-request session flow test, read, write, lock or unlink '
+              'normalises to an absolute path of plain components that starts with ALL components of the root; a refused '
+              'request (403 / 400 / ValueError / pass-through) has an empty access list; in a symlink-free tree the object '
+              'the OS reaches for such an un-normalised path (or the place where it would create the last component) is '
+              'exactly the normalised one. normpath is proved idempotent and shape-preserving. The pre-repair '
+              'string-prefix tests are kept as definitions with proved counterexamples (F10, F11). Partial: the index '
+              'name is assumed plain (trusted configuration; necessity proved), unquote / cookie parsing / regex / '
+              'filelock / the kernel are parameters validated by the differential run only.')
+LEVEL_NOTE = ('Trusted: Lean kernel (axioms propext, Classical.choice, Quot.sound only); the hand model '
+              'lean/CpModel/PathContain.lean as validated on every run against the real staticdir / FileSession inside a '
+              'sandbox where every stat/open/unlink/listdir/mkdir is recorded, and against os.path / urllib.parse.unquote '
+              'on random strings; symlink-free POSIX trees; expanduser, Windows branches and conditional requests not '
+              'modelled.')
 TRUSTED_BASE = [
     'the OS resolves a path without symlinks to what the lexical walk of its components gives '
     '(modelled by `resolve`, compared with os.stat on the sandbox tree, not proved about the kernel)',
@@ -63,6 +83,25 @@ RULE = ('URL paths / cookie values / session ids from a traversal grammar (.., %
         'sub-directories) x root names x mount sections x dir spellings x index/match options, through in-process WSGI '
         'and through direct calls; plus random strings for the path algebra.  Non-trivial = the request reached '
         'staticdir / the session code with a path that is not a plain existing name; distinct = distinct case JSON')
+
+
+def _lean_chars(s):
+    return '[' + ', '.join(("'%s'" % c) if (c.isascii() and (c.isalnum() or c in '-._ ')) else 'Char.ofNat %d' % ord(c)
+                           for c in s) + ']'
+
+
+def tables(ctx):
+    """Constants of the live FileSession class the model and the proofs depend on."""
+    from cherrypy.lib import sessions
+    pre, suf = sessions.FileSession.SESSION_PREFIX, sessions.FileSession.LOCK_SUFFIX
+    src = ('/- GENERATED by harness/c11.py from cherrypy.lib.sessions.FileSession - do not edit. -/\n'
+           'namespace CpModel.PathContain\n\n'
+           '/-- `FileSession.SESSION_PREFIX` = %r -/\n'
+           'def sessionPrefix : List Char := %s\n\n'
+           '/-- `FileSession.LOCK_SUFFIX` = %r -/\n'
+           'def lockSuffix : List Char := %s\n\n'
+           'end CpModel.PathContain\n' % (pre, _lean_chars(pre), suf, _lean_chars(suf)))
+    return {'CpModel/Gen/C11Tables.lean': src}
 
 
 # ----------------------------------------------------------------------------------------------
